@@ -287,7 +287,7 @@ func (g *Gen) one(t uint32, height uint32) ([]Cand, bool) {
 			return nil, false
 		}
 	}
-	if g.Cfg.Discards && g.Cfg.Boxes && g.Cfg.Mode == "" && g.R.Chance(1, 12) {
+	if g.Cfg.Discards && g.Cfg.Boxes && g.Cfg.Mode == "" && g.R.Chance(1, 8) {
 		if c, ok := g.storePattern(t); ok {
 			return c, true
 		}
